@@ -10,11 +10,13 @@ mkdir -p $dst
 [ -f $dst/patch.diff ] || cp $src/out/patch.diff $dst/patch.diff
 for f in demo.cpp demo_build.txt notes.md; do [ -f $src/out/$f ] && cp $src/out/$f $dst/; done
 [ -d $src/out/nrf_stub ] && cp -r $src/out/nrf_stub $dst/
+# any other helper directory of the demo (e.g. out/stub) is kept as well
+for d in $src/out/*/; do [ -d "$d" ] && [ "$(basename $d)" != nrf_stub ] && cp -r "$d" $dst/; done
 log=$dst/confirm.log; : > $log
 wt=$(mktemp -d /tmp/seedconf.XXXXXX)
 git -C /repo worktree add -q --detach $wt HEAD
 srcname=$(basename $src)
-demo_cmd=$(sed "s|/tmp/$srcname/out/nrf_stub|$dst/nrf_stub|g; s|/tmp/$srcname/out/demo.cpp|$dst/demo.cpp|g; s|/tmp/$srcname/out/demo|$wt/demo_bin|g; s|/tmp/$srcname|$wt|g" $dst/demo_build.txt | head -1)
+demo_cmd=$(sed "s|/tmp/$srcname/out/nrf_stub|$dst/nrf_stub|g; s|/tmp/$srcname/out/stub|$dst/stub|g; s|/tmp/$srcname/out/demo.cpp|$dst/demo.cpp|g; s|/tmp/$srcname/out/demo|$wt/demo_bin|g; s|/tmp/$srcname|$wt|g" $dst/demo_build.txt | head -1)
 {
 echo "== demo on unchanged tree"; ( eval "$demo_cmd" ) >> $log 2>&1; $wt/demo_bin > $wt/demo0.out 2>&1; rc0=$?; tail -2 $wt/demo0.out; echo "demo exit (unchanged) = $rc0"
 echo "== apply patch"; git -C $wt apply $dst/patch.diff && echo applied || { echo "PATCH DOES NOT APPLY"; }
